@@ -15,6 +15,7 @@ import (
 	"io"
 	"math/rand"
 	"runtime"
+	"runtime/debug"
 	"strings"
 	"sync"
 	"time"
@@ -378,40 +379,56 @@ func (p *plan) total(side int) int {
 
 type exchangeResult struct {
 	reads    [2][][]byte // reads[i] = what side i read (sent by side 1-i)
-	readErr  [2]error
-	readAt   [2]int
-	writeErr [2]error
-	writeAt  [2]string
+	failKind string      // "", "read", "write": the FIRST failure; later ones are consequences of tearing the link down
+	failSide int
+	failErr  error
+	failAt   string
 	panics   []string
 	hung     bool
 	dump     string
 }
 
 // exchange runs all writers and one reader per side; the reader of side i reads exactly as many messages as side
-// 1-i writes. wd is a wall-clock watchdog against hangs only - its firing is inconclusive.
+// 1-i writes. wd is a wall-clock watchdog against hangs only - its firing is inconclusive. After the first error
+// both transports are closed so that nobody waits for data that will never come.
 func exchange(tr [2]transport.Transport, p *plan, rng *rand.Rand, wd time.Duration) *exchangeResult {
 	res := &exchangeResult{}
 	var mu sync.Mutex
 	var wg sync.WaitGroup
+	var once sync.Once
+	fail := func(kind string, side int, err error, at string) {
+		mu.Lock()
+		first := res.failKind == ""
+		if first {
+			res.failKind, res.failSide, res.failErr, res.failAt = kind, side, err, at
+		}
+		mu.Unlock()
+		once.Do(func() {
+			go func() {
+				tr[0].Close()
+				tr[1].Close()
+			}()
+		})
+	}
+	onPanic := func(who string) {
+		if r := recover(); r != nil {
+			mu.Lock()
+			res.panics = append(res.panics, fmt.Sprintf("%s: %v\n%s", who, r, debug.Stack()))
+			mu.Unlock()
+			fail("panic", 0, fmt.Errorf("%v", r), who)
+		}
+	}
 	for side := 0; side < 2; side++ {
 		side := side
 		expect := p.total(1 - side)
 		wg.Add(1)
 		go func() {
 			defer wg.Done()
-			defer func() {
-				if r := recover(); r != nil {
-					mu.Lock()
-					res.panics = append(res.panics, fmt.Sprintf("reader side %d: %v\n%s", side, r, vrun.AllStacks()))
-					mu.Unlock()
-				}
-			}()
+			defer onPanic(fmt.Sprintf("reader side %d", side))
 			for i := 0; i < expect; i++ {
 				m, err := tr[side].Read()
 				if err != nil {
-					mu.Lock()
-					res.readErr[side], res.readAt[side] = err, i
-					mu.Unlock()
+					fail("read", side, err, fmt.Sprintf("read #%d of %d", i, expect))
 					return
 				}
 				cp := append([]byte{}, m...)
@@ -426,20 +443,10 @@ func exchange(tr [2]transport.Transport, p *plan, rng *rand.Rand, wd time.Durati
 			wg.Add(1)
 			go func() {
 				defer wg.Done()
-				defer func() {
-					if r := recover(); r != nil {
-						mu.Lock()
-						res.panics = append(res.panics, fmt.Sprintf("writer side %d #%d: %v\n%s", side, w, r, vrun.AllStacks()))
-						mu.Unlock()
-					}
-				}()
+				defer onPanic(fmt.Sprintf("writer side %d #%d", side, w))
 				for i, m := range p[side][w] {
 					if err := tr[side].Write(m.Data); err != nil {
-						mu.Lock()
-						if res.writeErr[side] == nil {
-							res.writeErr[side], res.writeAt[side] = err, fmt.Sprintf("writer %d message %d (%d bytes, class %s)", w, i, len(m.Data), m.Class)
-						}
-						mu.Unlock()
+						fail("write", side, err, fmt.Sprintf("writer %d message %d (%d bytes, class %s)", w, i, len(m.Data), m.Class))
 						return
 					}
 					if yield {
@@ -450,12 +457,12 @@ func exchange(tr [2]transport.Transport, p *plan, rng *rand.Rand, wd time.Durati
 		}
 	}
 	ok, dump := vrun.Watchdog(wd, wg.Wait)
-	if !ok {
-		res.hung, res.dump = true, dump
-	}
 	mu.Lock() // readers/writers may still be running after a watchdog: take a consistent snapshot
 	defer mu.Unlock()
 	cp := *res
+	if !ok {
+		cp.hung, cp.dump = true, dump
+	}
 	for i := range cp.reads {
 		cp.reads[i] = append([][]byte(nil), res.reads[i]...)
 	}
@@ -535,7 +542,7 @@ func checkInterleaving(recv [][]byte, sent [][]sentMsg) (failAt int, states int)
 }
 
 // classifyBadRead explains a received message that does not fit the per-writer order.
-func classifyBadRead(r []byte, sent [][]sentMsg) (what string, extra map[string]any) {
+func classifyBadRead(r []byte, sent [][]sentMsg, prev [][]byte) (what string, extra map[string]any) {
 	d := dg(r)
 	var all []sentMsg
 	for _, w := range sent {
@@ -544,6 +551,20 @@ func classifyBadRead(r []byte, sent [][]sentMsg) (what string, extra map[string]
 	for _, m := range all {
 		if dg(m.Data) == d {
 			return "order", map[string]any{"tag": parseTag(r)}
+		}
+	}
+	// dictionary prepended: <tail of the bytes delivered before> + <a sent message>
+	for _, a := range all {
+		k := len(r) - len(a.Data)
+		if k > 0 && bytes.Equal(r[k:], a.Data) {
+			var tail []byte
+			for i := len(prev) - 1; i >= 0 && len(tail) < k; i-- {
+				tail = append(append([]byte{}, prev[i]...), tail...)
+			}
+			if len(tail) >= k && bytes.Equal(tail[len(tail)-k:], r[:k]) {
+				return "dictionary-prepended", map[string]any{"message": parseTag(a.Data), "message_kind": kindNames[a.Kind], "message_len": len(a.Data), "prepended_bytes": k,
+					"note": "the prepended bytes are exactly the last bytes of the messages delivered before, i.e. the sliding dictionary"}
+			}
 		}
 	}
 	// glued: concatenation of two sent messages
@@ -625,7 +646,12 @@ func judgeDirection(prefix string, d *direction, eff string, wbits int, concurre
 	failAt, states := checkInterleaving(d.recv, d.sent)
 	o.maxStates = states
 	if failAt >= 0 {
-		what, extra := classifyBadRead(d.recv[failAt], d.sent)
+		what, extra := classifyBadRead(d.recv[failAt], d.sent, d.recv[:failAt])
+		if what == "dictionary-prepended" {
+			// one defect, one key: it does not depend on the Conn implementation or on concurrency
+			return &finding{"peer Read returned the sliding dictionary followed by the message instead of the message (context takeover)",
+				"websocket:" + eff + ":peer-read-dictionary-prepended", wit("via", prefix, "read_index", failAt, "read_head", head(d.recv[failAt]), "read_len", len(d.recv[failAt]), "detail", extra)}, o
+		}
 		clause := map[string]string{
 			"order": "peer Read returned the messages of one writer in a different order (or one message twice)",
 			"glued": "peer Read returned two messages glued together",
